@@ -421,6 +421,11 @@ class Ellipse:
                                          noniterate=noiter,
                                          isophote_list=isophote_list)
 
+            # no data at this sma (the isophote was not appended to
+            # the list): stop growing and change to go inwards.
+            if isophote.stop_code == 3 and isophote_list:
+                break
+
             # check for failed fit.
             if isophote.stop_code < 0 or isophote.stop_code == 1:
                 # in case the fit failed right at the outset, return an
@@ -677,6 +682,11 @@ class Ellipse:
                                nclip=nclip, linear_growth=linear,
                                geometry=geometry, integrmode=integrmode)
         sample.update(geometry.fix)
+
+        # an ellipse with no data at all (e.g., entirely outside of
+        # the image) is not a valid isophote (see EllipseFitter.fit)
+        if sample.actual_points < 1:
+            return Isophote(sample, 0, valid=False, stop_code=3)
 
         # build isophote without iterating with an EllipseFitter
         return Isophote(sample, 0, valid=True, stop_code=4)
